@@ -35,6 +35,19 @@ CHECKS = {
              'reduced alphabet (all code points except non-ASCII cased letters, of which ~28 '
              'representatives are kept) for the infix; logging stubbed; fetchers are in-memory stubs.',
         design='3 C01'),
+    'C03': dict(
+        text='Bounded symbolic model checking of serialise-then-parse on the real code: ~50 carrier sheets '
+             'with one hole at each content position (strings, url(), hrefs, namespace URIs, attribute '
+             'values, every identifier position, comments, unknown at-rule preludes, numbers); the hole '
+             'ranges over every string up to the length bound; for sources the parser accepts as '
+             'well-formed the solver proves, per path, that the reparsed DOM projection equals the '
+             'original character for character and that the second serialisation is byte-identical; '
+             'the same at node level (rule / declaration block / selector list / media list / value '
+             'text set back on a fresh object).',
+        note='Trusted: z3; symbolic regex and codec models; the DOM projection harness/projection.py; '
+             'well-formedness = accepted without log message and lexically complete; reduced alphabet '
+             'without lone surrogates; DOM structure reached only through the listed carriers.',
+        design='3 C03'),
     'C09': dict(
         text='Inductive step from an arbitrary valid state: the rule list holds up to N rule objects '
              'whose kind codes are z3 variables constrained only by the invariant the property '
